@@ -136,7 +136,7 @@ def get_area_targets(
         tdf["t_c2"],
     )
     with np.errstate(divide="ignore", invalid="ignore"):
-        U_i = np.where(R_i > tol, 1.0 / R_i, 1.0)
+        U_i = np.where(R_i > 0.0, 1.0 / R_i, 1.0)
     if not(Q_i.shape == U_i.shape == dt_lm_i.shape):
         raise ValueError("Shape of heat exchanger area calculation arrays are unequal.")
     area_i = Q_i / (U_i * dt_lm_i)
